@@ -1,4 +1,5 @@
 import Tbx.Proofs.InertialFlowStep
+import Tbx.Proofs.InertialFlowTotal
 import Tbx.Proofs.InertialFlowSort
 import Tbx.Props.C02
 /-
@@ -314,6 +315,38 @@ example : [0,1,2,3,4,5] = sortIds exShuffled exCoord 2 :=
       simp only [axisKey, exCoord] at h
       omega)
 example : sortIds exShuffled exCoord 3 = [0,1,2,3,4,5] := by decide +kernel
+
+/-! ### totality -/
+
+/-- **step_total**: on the property's quantifier the model never reaches a panic branch and never runs out
+    of fuel (`phaseFuel` = |flow-graph edges| + 2 suffices), whatever the bound; and there is ONE result
+    `r`, `0 ≤ r.flow`, that the step returns for every bound ≥ r.flow, leaving min(bound, flow) in the
+    shared bound.  From the total correctness of the Dinic model (C01/C02:
+    `Tbx.Flow.solvers_return_canonical_cut`), lifted to the bounded phase loop -/
+theorem step_total (edges : List (Nat × Nat)) (sorted : List Nat) (k : Nat)
+    (hpre : preOK edges sorted k = true) (hsz : 2 * edges.length + 6 < INV) :
+    (∀ b : Int, subStepSorted edges sorted k b ≠ .panic) ∧
+    ∃ r : FlowRes, 0 ≤ r.flow ∧ ∀ b : Int, r.flow ≤ b →
+      subStepSorted edges sorted k b = .ok r ∧ boundAfter edges sorted k b = min b r.flow :=
+  subStepSorted_total edges sorted k hpre hsz
+
+example : ∀ b : Int, subStepSorted exEdges exIds 2 b ≠ .panic := (step_total exEdges exIds 2 ex_pre ex_sz).1
+
+/-- **sub_step_total** (the form C05/C06 use): for distinct ids, n ≥ 2, 1 ≤ k, 2k ≤ n, sources in the
+    cell: some non-negative bound yields `Ok` with a non-negative flow, and no non-negative (indeed no)
+    bound yields a panic -/
+theorem sub_step_total (edges : List (Nat × Nat)) (ids : List Nat) (coord : Nat → Coord) (axis k : Nat)
+    (hnd : ids.Nodup) (hn : 2 ≤ ids.length) (hk1 : 1 ≤ k) (hk2 : 2 * k ≤ ids.length)
+    (hsrc : ∀ e, e ∈ edges → e.1 ∈ ids) (hsz : 2 * edges.length + 6 < INV) :
+    (∃ (b : Int) (r : FlowRes), 0 ≤ b ∧ 0 ≤ r.flow ∧ subStep edges ids coord axis k b = .ok r) ∧
+    (∀ b : Int, subStep edges ids coord axis k b ≠ .panic) := by
+  obtain ⟨hnp, r, h0, hr⟩ := step_total edges (sortIds ids coord axis) k
+    (preOK_sortIds edges ids coord axis k hnd hn hk1 hk2 hsrc) hsz
+  exact ⟨⟨r.flow, r, h0, h0, (hr r.flow (Int.le_refl _)).1⟩, hnp⟩
+
+example : ∃ (b : Int) (r : FlowRes), 0 ≤ b ∧ 0 ≤ r.flow ∧ subStep exEdges exShuffled exCoord 2 2 b = .ok r :=
+  (sub_step_total exEdges exShuffled exCoord 2 2 (by decide) (by decide) (by decide) (by decide) (by decide)
+    ex_sz).1
 
 /-! ### the judge's checker -/
 
